@@ -1,0 +1,12 @@
+//go:build verif
+
+package wtxmgr
+
+import "github.com/lightningnetwork/lnd/clock"
+
+// VerifSetClock replaces the store's clock (used for output-lease expiry).
+// Only compiled with the "verif" build tag; used by the external
+// verification harness.
+func (s *Store) VerifSetClock(c clock.Clock) {
+	s.clock = c
+}
